@@ -169,6 +169,19 @@ def cmdOrbDfs (a : Args) : String :=
   | .ok (ps, l) => s!"ok count={l.length} paths={showLists ps} graphs={showGraphs l}"
   | .error e => errStr e
 
+def metricOf (name : String) (g : BMat) : Float :=
+  match name with
+  | "edges" => (edgeCount g.r g.f).toFloat
+  | "neg-edges" => 0.0 - (edgeCount g.r g.f).toFloat
+  | _ => (maxDegree g.r g.f).toFloat
+
+def cmdWalk (a : Args) : String :=
+  let g := graphOf a
+  let score := if get a "kind" = "nbedge" then neighborEdgeScore else degreeScore
+  match lcWalk score (metricOf (get a "metric")) g (getNat a "limit") (getNat a "trials") with
+  | .ok l => s!"ok count={l.length} graphs={showGraphs (l.map fun c => c.2)}"
+  | .error e => errStr e
+
 /-! ### LC equivalence -/
 
 def modeOf (s : String) : Mode := if s = "det" then .det else if s = "rand" then .rand else .other
@@ -224,7 +237,7 @@ def cmdLcSeq (a : Args) : String :=
 def cmdFind (a : Args) : String :=
   let g := graphOf a
   let h := graphOf a "b"
-  match findLcOperations (getNat a "fuel") g h (modeOf (get a "mode")) (drawsOf (get a "draws")) (get a "fixed" = "1") with
+  match findLcOperations (getNat a "fuel") g h (modeOf (get a "mode")) (drawsOf (get a "draws")) (get a "legacy" = "1") with
   | .ok l => s!"ok seq={showNats "," l}"
   | .error e => errStr e
 
@@ -275,6 +288,7 @@ def dispatch (cmd : String) (a : Args) : Option String :=
   | "orb.linear" => some (cmdOrbLinear a)
   | "orb.partialseq" => some (cmdPartialSeq a)
   | "orb.dfs" => some (cmdOrbDfs a)
+  | "orb.walk" => some (cmdWalk a)
   | "lc.equiv" => some (cmdEquiv a)
   | "lc.system" => some (cmdSystem a)
   | "lc.ops" => some (cmdOps a)
